@@ -254,14 +254,17 @@ func (vc *VC) classify(i int) *assertInfo {
 // slicedAsserts: backward data-flow closure from the goal.  Any subset of the
 // assumptions is sound; quantified array axioms whose array cannot influence
 // the goal are the expensive ones and are dropped.
-func (vc *VC) slicedAsserts(ob *Obligation) map[int]bool {
+func (vc *VC) slicedAsserts(ob *Obligation) map[int]bool { return vc.slicedAssertsLevel(ob, 1<<30) }
+
+// slicedAssertsLevel limits the closure to maxLevel rounds of expansion.
+func (vc *VC) slicedAssertsLevel(ob *Obligation, maxLevel int) map[int]bool {
 	needed := map[string]bool{}
-	var work []string
+	var work, next []string
 	add := func(ss []string) {
 		for _, s := range ss {
 			if !needed[s] {
 				needed[s] = true
-				work = append(work, s)
+				next = append(next, s)
 			}
 		}
 	}
@@ -294,16 +297,28 @@ func (vc *VC) slicedAsserts(ob *Obligation) map[int]bool {
 	}
 	vc.nFunIndexed = len(vc.decls)
 	keep := map[int]bool{}
-	for len(work) > 0 {
-		s := work[len(work)-1]
-		work = work[:len(work)-1]
-		if deps, ok := vc.funDeps[s]; ok {
-			add(deps)
-		}
-		for _, i := range vc.defIdx[s] {
-			if i < ob.nAsserts && !keep[i] {
-				keep[i] = true
-				add(vc.classify(i).syms)
+	for level := 0; len(next) > 0 && level < maxLevel; level++ {
+		work, next = next, nil
+		for _, s := range work {
+			if deps, ok := vc.funDeps[s]; ok {
+				add(deps)
+			}
+			for _, i := range vc.defIdx[s] {
+				if i < ob.nAsserts && !keep[i] {
+					keep[i] = true
+					ai := vc.classify(i)
+					if len(ai.qkeys) == 0 {
+						// plain definitions do not cost a level
+						for _, d := range ai.syms {
+							if !needed[d] {
+								needed[d] = true
+								work = append(work, d)
+							}
+						}
+					} else {
+						add(ai.syms)
+					}
+				}
 			}
 		}
 	}
@@ -437,9 +452,22 @@ func (vc *VC) famSort(fam string) string {
 	panic("unknown family sort: " + fam)
 }
 
+// byteTyping: every element of a byte heap version is a byte (heap typing
+// invariant; needed when contracts quantify over elements).
+func (vc *VC) byteTyping(arr Term) {
+	vc.addAssertGlobal(fmt.Sprintf("(assert (forall ((a Int)) (! (and (<= 0 (select %s a)) (<= (select %s a) 255)) :pattern ((select %s a)))))", arr, arr, arr))
+}
+
 func (vc *VC) get(s *State, fam string) Term {
 	if t, ok := s.m[fam]; ok {
 		return t
+	}
+	if fam == "E$uint8" {
+		if _, seen := vc.declared[q(fam+"@0")]; !seen {
+			n := vc.declare(fam+"@0", vc.famSort(fam))
+			vc.byteTyping(n)
+			return n
+		}
 	}
 	if srt, ok := vc.localSorts[fam]; ok {
 		// cells of local variables start out zero
@@ -531,6 +559,14 @@ func (vc *VC) selDepth(a, i Term, depth int) Term {
 				cur = d.prev
 				continue
 			}
+			// read-over-write expansion: select(store(a,j,v), i) = ite(i = j, v, select(a, i));
+			// keeps the underlying array visible to E-matching
+			if depth < 10 {
+				rest := vc.selDepth(d.prev, i, depth+1)
+				if len(rest) < 3000 {
+					return ite(eq(i, d.idx), d.val, rest)
+				}
+			}
 			break
 		}
 		if depth < 12 {
@@ -559,6 +595,16 @@ func distinctTerms(x, y Term) bool {
 func splitOffset(t Term) (Term, int64) {
 	if n, ok := litInt(t); ok {
 		return "", n
+	}
+	if strings.HasPrefix(t, "(adr ") {
+		ps := splitTop(t[5 : len(t)-1])
+		if len(ps) == 2 {
+			if n, ok := litInt(ps[1]); ok {
+				b, c := splitOffset(ps[0])
+				return "adr:" + b, c + n
+			}
+			return t, 0
+		}
 	}
 	if strings.HasPrefix(t, "(+ ") {
 		ps := splitTop(t[3 : len(t)-1])
@@ -628,6 +674,7 @@ func (vc *VC) havocFam(s *State, fam string) {
 	n := vc.fresh(fam+"~h", srt)
 	if fam == "E$uint8" {
 		vc.assume(fmt.Sprintf("(forall ((k Int)) (! (=> (< k 0) (= (select %s k) (select %s k))) :pattern ((select %s k))))", n, old, n))
+		vc.byteTyping(n)
 	}
 	s.m[fam] = n
 }
